@@ -57,7 +57,9 @@ void harness(void)
 	mpq_ILLlp_basis B;
 	IN_INT(ns); IN_INT(nr);
 	ASSUME(0 <= ns && ns <= 2 && 0 <= nr && nr <= 2);
+	B.rownorms_size = nondet_int(); B.colnorms_size = nondet_int();	/* a basis object comes from plain malloc: arbitrary content */
 	mpq_ILLlp_basis_init(&B);
+	ASSERT(B.rownorms_size == 0 && B.colnorms_size == 0, "C17/C18: an initialised basis has norm-array capacities 0 (ILLlib_addrows skips growing the row norms when rownorms_size says there is room)");
 	if (mpq_ILLlp_basis_alloc(&B, ns, nr) == 0) {
 		mpq_QSdata p; QSbasis *qB; int i;
 		for (i = 0; i < 2; i++) { if (i < ns) B.cstat[i] = '0'; if (i < nr) B.rstat[i] = '1'; }
